@@ -3,13 +3,15 @@ from __future__ import annotations
 
 from htmltools import Tag, TagList
 
-from engine.api import harness, pick
+from engine.api import conc, concrete, harness, pick
 from oracles.trees import (CATALOGUE, INLINE_CHILD, N_CHILD, b_el, b_rh, block_names_of, child, flat, ws_positions_ok)
 
 N_INL = len(INLINE_CHILD)
 S_SET = [k for k in INLINE_CHILD if CATALOGUE[k][0] in ("inline", "br")]          # inline-only element subtrees
 AB_SET = [k for k in INLINE_CHILD if CATALOGUE[k][0] != "meta"]                    # nodes without a ws-enabled tag
-ALL = list(range(N_CHILD))
+# representative entries first (absent, text, html, metadata, void block, block with children, inline with block inside, rh) so that a
+# small quick bound still sees every kind
+ALL = [0, 1, 4, 7, 8 + 3, 8 + 7, 18 + 6, 3] + [k for k in range(N_CHILD) if k not in (0, 1, 4, 7, 8 + 3, 8 + 7, 18 + 6, 3)]
 N_CTX = 4
 
 
@@ -42,10 +44,10 @@ def h_inline_exact(k0: int, k1: int, k2: int, indent: int, eol: str) -> bool:
 
 
 def _pre_subst(B, c, L, S, R, pr):
-    return 0 <= c < N_CTX and 0 <= L < N_CHILD and 0 <= S < len(S_SET) and 0 <= R < B["R"] and 0 <= pr <= 1
+    return 0 <= c < N_CTX and 0 <= L < N_CHILD and 0 <= S < len(S_SET) and 0 <= R < B["R"] and 0 <= pr <= B["PR"]
 
 
-@harness("C05", pre=_pre_subst, bounds={"quick": {"R": 10}, "thorough": {"R": N_CHILD}},
+@harness("C05", pre=_pre_subst, bounds={"quick": {"R": N_CHILD, "PR": 0}, "thorough": {"R": N_CHILD, "PR": 1}},
          shard={"c": range(N_CTX), "S": range(len(S_SET))},
          sel=["c: context (block parent, top-level list, inline parent inside a block, nested block)", "L, R: left/right sibling, any catalogue child incl. blocks and metadata",
               "S: inline-only element subtree", "pr: (indent, eol)"],
@@ -54,26 +56,34 @@ def _pre_subst(B, c, L, S, R, pr):
 def h_context_subst(c: int, L: int, S: int, R: int, pr: int) -> bool:
     """the exact string flat(S) appears contiguously wherever S is placed: replacing S by a self-rendering
     object that returns flat(S) changes nothing"""
-    indent, eol = pick(pr, [(0, "\n"), (2, "\r\n")])
-    l, s, r = child(pick(L, ALL), 0), child(pick(S, S_SET), 1), child(pick(R, ALL), 2)
+    return concrete(_subst_body, conc(c, 0, N_CTX - 1), pick(L, ALL), pick(S, S_SET), pick(R, ALL), conc(pr, 0, 1))
+
+
+def _subst_body(c: int, iL: int, iS: int, iR: int, pr: int) -> bool:
+    indent, eol = [(0, "\n"), (2, "\r\n")][pr]
+    l, s, r = child(iL, 0), child(iS, 1), child(iR, 2)
     k1 = [x for x in (l, s, r) if x is not None]
     k2 = [x for x in (l, b_rh(flat(s[1])), r) if x is not None]
     return ctx(c, k1, indent, eol) == ctx(c, k2, indent, eol)
 
 
 def _pre_adj(B, c, A, Bk, Z, pr):
-    return 0 <= c < N_CTX and 0 <= A < len(AB_SET) and 0 <= Bk < len(AB_SET) and 0 <= Z < B["Z"] and 0 <= pr <= 1
+    return 0 <= c < N_CTX and 0 <= A < len(AB_SET) and 0 <= Bk < len(AB_SET) and 0 <= Z < B["Z"] and 0 <= pr <= B["PR"]
 
 
-@harness("C05", pre=_pre_adj, bounds={"quick": {"Z": 9}, "thorough": {"Z": N_CHILD}},
+@harness("C05", pre=_pre_adj, bounds={"quick": {"Z": N_CHILD, "PR": 0}, "thorough": {"Z": N_CHILD, "PR": 1}},
          shard={"c": range(N_CTX), "A": range(len(AB_SET))},
          sel=["c: context", "A, Bk: adjacent siblings neither of which contains a whitespace-enabled tag", "Z: following sibling (any)", "pr"],
          targets=["htmltools._core.TagList.get_html_string"],
          timeout={"quick": 200, "thorough": 1500})
 def h_adjacent(c: int, A: int, Bk: int, Z: int, pr: int) -> bool:
     """adjacent siblings without a whitespace-enabled tag are emitted with nothing between them"""
-    indent, eol = pick(pr, [(0, "\n"), (1, "\r\n")])
-    a, b, z = child(pick(A, AB_SET), 0), child(pick(Bk, AB_SET), 1), child(pick(Z, ALL), 2)
+    return concrete(_adj_body, conc(c, 0, N_CTX - 1), pick(A, AB_SET), pick(Bk, AB_SET), pick(Z, ALL), conc(pr, 0, 1))
+
+
+def _adj_body(c: int, iA: int, iB: int, iZ: int, pr: int) -> bool:
+    indent, eol = [(0, "\n"), (1, "\r\n")][pr]
+    a, b, z = child(iA, 0), child(iB, 1), child(iZ, 2)
     k1 = [x for x in (a, b, z) if x is not None]
     k2 = [x for x in (b_rh(flat(a[1]) + flat(b[1])), z) if x is not None]
     return ctx(c, k1, indent, eol) == ctx(c, k2, indent, eol)
@@ -82,14 +92,19 @@ def h_adjacent(c: int, A: int, Bk: int, Z: int, pr: int) -> bool:
 NOWS = [k for k in range(N_CHILD) if CATALOGUE[k][0] != "textnl"]
 
 
-@harness("C05", pre=lambda B, root, k0, k1: 0 <= root <= 1 and 0 <= k0 < len(NOWS) and 0 <= k1 < len(NOWS),
+@harness("C05", pre=lambda B, root, k0, k1, k2: 0 <= root <= 1 and 0 <= k0 < len(NOWS) and 0 <= k1 < len(NOWS) and 0 <= k2 < (len(NOWS) if B["THREE"] else 1),
+         bounds={"quick": {"THREE": False}, "thorough": {"THREE": True}},
          shard={"root": range(2), "k0": range(len(NOWS))},
-         sel=["root: block / inline root tag", "k0, k1: any catalogue child without whitespace in its leaves (block-inside-inline included)"],
+         sel=["root: block / inline root tag", "k0, k1, k2: any catalogue child without whitespace in its leaves (block-inside-inline included)"],
          targets=["htmltools._core.Tag.get_html_string"],
          timeout={"quick": 200, "thorough": 900})
-def h_ws_positions(root: int, k0: int, k1: int) -> bool:
+def h_ws_positions(root: int, k0: int, k1: int, k2: int) -> bool:
     """layout whitespace only ever appears immediately inside or outside the opening/closing tag of a block tag"""
-    kids = [child(pick(k, NOWS), i) for i, k in enumerate((k0, k1))]
+    return concrete(_ws_body, conc(root, 0, 1), pick(k0, NOWS), pick(k1, NOWS), pick(k2, NOWS))
+
+
+def _ws_body(root: int, i0: int, i1: int, i2: int) -> bool:
+    kids = [child(k, i) for i, k in enumerate((i0, i1, i2))]
     kids = [k for k in kids if k is not None]
     real, a = b_el("div" if root == 0 else "span", root == 0, kids, [("id", "r"), ("class", "c")])
     return ws_positions_ok(real.get_html_string(), block_names_of(a))
